@@ -51,13 +51,8 @@ psf_store_string (SF_PRIVATE *psf, int str_type, const char *str)
 
 	/* Find the next free slot in table. */
 	for (k = 0 ; k < SF_MAX_STRINGS ; k++)
-	{	/* If we find a matching entry clear it. */
-		if (psf->strings.data [k].type == str_type)
-			psf->strings.data [k].type = -1 ;
-
 		if (psf->strings.data [k].type == 0)
 			break ;
-		} ;
 
 	/* Determine flags */
 	str_flags = SF_STR_LOCATE_START ;
@@ -140,6 +135,14 @@ psf_store_string (SF_PRIVATE *psf, int str_type, const char *str)
 			} ;
 
 		psf->strings.storage_len = newlen ;
+		} ;
+
+	/* The call cannot fail any more : clear the entry this string replaces. */
+	{	int j ;
+
+		for (j = 0 ; j < k ; j++)
+			if (psf->strings.data [j].type == str_type)
+				psf->strings.data [j].type = -1 ;
 		} ;
 
 	psf->strings.data [k].type = str_type ;
